@@ -624,6 +624,21 @@ fn check_positions_codec(ctx: &mut Ctx, av: &Avail, deltas: &[u32], reads: &[(us
             return;
         }
     };
+    // the stateful reader model on the whole sequence of reads (same reader object on both sides)
+    {
+        let seq: Vec<(usize, usize)> = reads.iter().cloned().filter(|(_, l)| *l > 0).collect();
+        if !seq.is_empty() {
+            let mut rd = PositionReader::open(OwnedBytes::new(real.clone())).unwrap();
+            let outs: Vec<String> = seq.iter().map(|(o, l)| { let mut out = vec![0u32; *l]; rd.read(*o as u64, &mut out); nat_list(&out) }).collect();
+            let m = ctx.model.ask(&format!("C07 pos_reads {} {}", hex(&real), seq.iter().map(|(o, l)| format!("{o}:{l}")).collect::<Vec<_>>().join(",")));
+            ctx.report.count("codec:pos-reads-stateful");
+            if m == "bad-op" {
+                ctx.report.violation("model", "C07:model-unavailable", "the Lean driver answers bad-op for pos_reads".into(), json!({"kind": "probe"}));
+            } else if m != outs.join("|") {
+                ctx.report.violation("model", "C07:model-position-reader", format!("stateful PositionReader on {n} deltas, reads {:?}: real {} model {}", seq, short(&outs.join("|")), short(&m)), case.clone());
+            }
+        }
+    }
     for (off, len) in reads {
         ctx.report.count("codec:pos-read");
         let mut out = vec![0u32; *len];
